@@ -132,10 +132,16 @@ TRet ==
 
 \* a harness stimulus (management-cycle trigger, connect outcome, peer frame ...) and what the client had done
 \* when the ready queue was empty again
+\* "offer-begin": the uploader offers the file (PeerTransferRequest).  For a download that is FAILED and still in the
+\* list this is the peer legitimately re-queueing it (TransferTasks.PeerOffer: queue(remotely), initialize-download)
+\* - also when it got there from PAUSED by the peer's own queue failure: the quiet interval ends.  ABORTED, PAUSED
+\* and removed transfers are refused and stay quiet.
 TStim ==
   /\ IsEv("stim")
   /\ acted' = Marks
-  /\ UNCHANGED <<op, quiet, cnt>>
+  /\ quiet' = IF Rec.o = "offer-begin" /\ Rec.t \in T /\ present[Rec.t] /\ x[Rec.t].st = "FAILED"
+                THEN [quiet EXCEPT ![Rec.t] = 0] ELSE quiet
+  /\ UNCHANGED <<op, cnt>>
   /\ Bind(Rec) /\ Consume
 
 \* a frame about t's file was written (PeerTransferQueue, PeerTransferRequest, PeerPlaceInQueueRequest,
